@@ -350,11 +350,11 @@ func (c *fnCtx) function() {
 	// named results and logs start at their zero values
 	body = inner
 	for i := len(fn.logs) - 1; i >= 0; i-- {
-		body = tLet{c.logs[fn.logs[i]].name, "[]", body}
+		body = tLet{c.logs[fn.logs[i]].name + " : " + varType(c.logs[fn.logs[i]]), "[]", body}
 	}
 	for i := len(c.retNames) - 1; i >= 0; i-- {
 		if c.retNames[i] != nil {
-			body = tLet{c.retNames[i].name, c.zeroOf(c.retNames[i].typ, fd), body}
+			body = tLet{c.retNames[i].name + " : " + varType(c.retNames[i]), c.zeroOf(c.retNames[i].typ, fd), body}
 		}
 	}
 	c.emit(body)
@@ -386,6 +386,9 @@ func (c *fnCtx) sliceUsage(fd *ast.FuncDecl) map[string]*sliceUse {
 	use := map[string]*sliceUse{}
 	isParam := map[*ast.Object]string{}
 	for _, f := range fd.Type.Params.List {
+		if c.goType(f.Type).k != "slice" {
+			continue // strings and scalars are values
+		}
 		for _, n := range f.Names {
 			if n.Obj != nil {
 				isParam[n.Obj] = n.Name
